@@ -340,7 +340,7 @@ func path(v ssa.Value, depth int, seen map[ssa.Value]bool) string {
 	case *ssa.MakeSlice:
 		return "make"
 	case *ssa.MakeMap:
-		return "makemap"
+		return "makemap<" + types.TypeString(x.Type(), shortQ) + ">"
 	}
 	return fmt.Sprintf("<%T>", v)
 }
